@@ -538,8 +538,7 @@ def _sub_key(node):
     return None
 
 
-def derived_alignment(ctx, mod):
-    rule = 'C01-D5'
+def derived_alignment(ctx, mod, rule='C01-D5'):
     f = mod.func('derived_observable')
     calls = [c for c in walk(f) if isinstance(c, ast.Call) and call_name(c) == '_expand_deltas_for_merge']
     ctx.floor('_expand_deltas_for_merge call sites in derived_observable', len(calls), 2)
@@ -964,10 +963,11 @@ def run(ctx):
     from . import C04
     ctx.guarded('C01-D5', 'obs.py:_merge_idx', C04.merge_idx_rules, ctx, obs, 'C01-D5', (('_merge_idx', 'union'),))
     ctx.guarded('C01-D7', 'obs.py:derived_observable@wiring', wiring, ctx, obs)
-    from .. import unusedparams
-    ctx.rule('C01-D9', 'every accepted option is read (no silently ignored parameter)')
+    from .. import unusedparams, leakedloop
+    ctx.rule('C01-D9', 'every accepted option is read (no silently ignored parameter); no loop variable read after its loop')
     for mn_ in ('obs', 'covobs'):
         ctx.guarded('C01-D9', mn_ + '@parameters', unusedparams.check, ctx, 'C01-D9', ctx.repo.mod(mn_))
+        ctx.guarded('C01-D9', mn_ + '@loop-variables', leakedloop.check, ctx, 'C01-D9', ctx.repo.mod(mn_))
 
 
 
